@@ -194,7 +194,7 @@ impl<'a> MediaPlaylistBuilder<'a> {
                 let max_segment_duration = self
                     .allowable_excess_duration
                     .as_ref()
-                    .map_or(target_duration, |value| target_duration + *value);
+                    .map_or(target_duration, |value| target_duration.saturating_add(*value));
 
                 if rounded_segment_duration > max_segment_duration {
                     return Err(Error::custom(format!(
